@@ -42,6 +42,7 @@ import (
 	"crypto/ed25519"
 	"fmt"
 	"sort"
+	"strings"
 	"time"
 
 	"github.com/ethereum/go-ethereum/common"
@@ -386,6 +387,41 @@ func (r *Rig) Round() *Block {
 				return inner(height, keep)
 			}
 			return keep
+		}
+	}
+	// the proposer is free in the order of a block: a stray evaluation of a Byzantine keyper goes in front
+	{
+		inner := sel
+		sel = func(height int64, pending []*Tx) []*Tx {
+			if inner != nil {
+				pending = inner(height, pending)
+			}
+			front, rest := []*Tx{}, []*Tx{}
+			strayOf := map[int]bool{}
+			for _, t := range pending {
+				if strings.HasSuffix(t.Origin, ":stray-eval") {
+					strayOf[t.SignerIndex] = true
+				}
+			}
+			if len(strayOf) == 0 {
+				return pending
+			}
+			// first the Byzantine keyper's own apologies, then its stray evaluation, then everybody else's messages
+			for _, t := range pending {
+				if strayOf[t.SignerIndex] && t.Kind == "apology" {
+					front = append(front, t)
+				}
+			}
+			for _, t := range pending {
+				switch {
+				case strings.HasSuffix(t.Origin, ":stray-eval"):
+					front = append(front, t)
+				case strayOf[t.SignerIndex] && t.Kind == "apology":
+				default:
+					rest = append(rest, t)
+				}
+			}
+			return append(front, rest...)
 		}
 	}
 	b := r.Chain.MakeBlock(sel)
